@@ -1,3 +1,4 @@
+import NextestModel.Model.Shell
 /-
   Mirrors nextest-runner/src/list/test_list.rs `TestInstance::make_command` (argv) and
   nextest-runner/src/test_command.rs `TestCommand::new` + runner/executor.rs `run_test_inner`
@@ -21,12 +22,77 @@ def lookup (ws : Writes) (key : String) : Option String :=
   | some e => some e.2
   | none => none
 
+/-- one entry of Cargo's `[env]` table after `EnvironmentMap::new`: key, value, `force` (absent = false) -/
+structure CargoVar where
+  key : String
+  value : String
+  force : Bool
+
+/-- `EnvironmentMap::apply_env`: an entry is written unless the key is already in nextest's own (inherited)
+    environment and `force` is not set -/
+def applyEnv (inherited : Writes) (cfg : List CargoVar) : Writes :=
+  cfg.filterMap fun v => if inherited.any (·.1 == v.key) && !v.force then none else some (v.key, v.value)
+
+/-- package metadata that `apply_package_env` exports -/
+structure Package where
+  name : String
+  version : String
+  major : String
+  minor : String
+  patch : String
+  pre : String
+  authors : String        -- joined with `:`
+  description : String
+  homepage : String
+  license : String
+  licenseFile : String
+  repository : String
+  rustVersion : String
+
+/-- `apply_package_env`, in program order -/
+def packageEnv (p : Package) : Writes :=
+  [("CARGO_PKG_VERSION", p.version), ("CARGO_PKG_VERSION_MAJOR", p.major), ("CARGO_PKG_VERSION_MINOR", p.minor),
+   ("CARGO_PKG_VERSION_PATCH", p.patch), ("CARGO_PKG_VERSION_PRE", p.pre), ("CARGO_PKG_AUTHORS", p.authors),
+   ("CARGO_PKG_NAME", p.name), ("CARGO_PKG_DESCRIPTION", p.description), ("CARGO_PKG_HOMEPAGE", p.homepage),
+   ("CARGO_PKG_LICENSE", p.license), ("CARGO_PKG_LICENSE_FILE", p.licenseFile), ("CARGO_PKG_REPOSITORY", p.repository),
+   ("CARGO_PKG_RUST_VERSION", p.rustVersion)]
+
+/-- the writes of `TestCommand::new`, in program order, on top of the inherited environment: Cargo `[env]`
+    (`cargoEnv`, already filtered by `applyEnv`), build-script variables, nextest's own variables (the working
+    directory doubles as `CARGO_MANIFEST_DIR`), the package variables -/
+def commandEnv (inherited cargoEnv buildScriptEnv : Writes) (profile manifestDir : String) (pkgVars : Writes) : Writes :=
+  inherited ++ cargoEnv ++ buildScriptEnv ++
+  [("NEXTEST", "1"), ("NEXTEST_EXECUTION_MODE", "process-per-test"), ("NEXTEST_PROFILE", profile),
+   ("CARGO_MANIFEST_DIR", manifestDir)] ++ pkgVars
+
 /-- the writes of `TestCommand::new` followed by `run_test_inner`, in program order -/
 def testEnv (inherited cargoEnv buildScriptEnv : Writes) (profile manifestDir : String) (pkgVars : Writes)
     (runId attempt : String) (perTest : Writes) (scriptEnv : Writes) : Writes :=
-  inherited ++ cargoEnv ++ buildScriptEnv ++
-  [("NEXTEST", "1"), ("NEXTEST_EXECUTION_MODE", "process-per-test"), ("NEXTEST_PROFILE", profile),
-   ("CARGO_MANIFEST_DIR", manifestDir)] ++ pkgVars ++
+  commandEnv inherited cargoEnv buildScriptEnv profile manifestDir pkgVars ++
   [("__NEXTEST_ATTEMPT", attempt), ("NEXTEST_RUN_ID", runId)] ++ perTest ++ scriptEnv
+
+/-- `create_command` (test_command.rs): the argument vector (program first) of the process nextest spawns.
+    With the double-spawn launcher (`current_exe = some exe`) it is
+    `exe __double-spawn -- <program> <shell_words::join args>`; otherwise `program args…`. -/
+def createCommand (currentExe : Option (List Char)) (program : List Char) (args : List (List Char)) : List (List Char) :=
+  match currentExe with
+  | some exe => [exe, "__double-spawn".toList, "--".toList, program, Shell.join args]
+  | none => program :: args
+
+/-- `DoubleSpawnOpts::exec` (cargo-nextest/src/double_spawn.rs): the launcher re-reads its two positional
+    arguments and `exec`s `program` with `shell_words::split args`; `none` = `DoubleSpawnParseArgsError`. -/
+def doubleSpawnExec (program joined : List Char) : Option (List (List Char)) :=
+  match Shell.split joined with
+  | some args => some (program :: args)
+  | none => none
+
+/-- the argument vector of the process that finally runs the test binary -/
+def finalArgv (currentExe : Option (List Char)) (program : List Char) (args : List (List Char)) : Option (List (List Char)) :=
+  match currentExe with
+  | some exe =>
+    match createCommand (some exe) program args with
+    | [_, _, _, prog, joined] => doubleSpawnExec prog joined
+    | _ => none
+  | none => some (createCommand none program args)
 
 end NextestModel.Command
